@@ -101,6 +101,8 @@ def run(idx: Index, rep: Report, tier: str):
     from . import C03 as _C03
     _C03.check_dispatch(idx, rep)                 # the operator encoder's own dispatch and refusals (zero electrons is a valid sector)
     check_vector_to_circuit(idx, rep)
+    from .C03 import check_jkmn_tree
+    check_jkmn_tree(idx, rep)          # operator and vector side of the JKMN encoding both index qubits through this tree
     check_vector_ordering(idx, rep)
     check_default_spin_agreement(idx, rep)
     _C03.check_register_size_reaches_encoder(idx, rep)       # occupation-number operators of low orbitals must be encoded on the full register
